@@ -4,6 +4,6 @@ cd "$(dirname "$0")" || exit 2
 export PYTHONDONTWRITEBYTECODE=1
 /venv/bin/python gen/gen.py || echo "translator reported failures (checks will report them per property)"
 cd lean || exit 2
-lake build 2>&1 | tail -40
+lake build Kapture $(ls Kapture/Drivers/*.lean | sed 's#/#.#g; s#\.lean$##') 2>&1 | tail -40
 # a failing theorem must not fail the set-up: each check rebuilds its own targets and reports
 exit 0
